@@ -98,46 +98,57 @@ theorem rebuild_v2_complete (rootOf : Bytes → Bytes) (ds : Nat) (fs : FS) (fil
 
 /-- the hypotheses hold in the example world for the record `n/f` (3 bytes, root of 1 2 3) -/
 example : CleanPath [[100]] ∧ DestReady Ex.fs [[100]] ∧ FilemapOK Ex.fs [[100]] Ex.fmap ∧
-    (∀ r ∈ [(⟨[110,47,102], [102], 3, some [1,2,3]⟩ : FileRec)], IntactV2 id Ex.fs Ex.fmap r) := by
+    (∀ r ∈ [(⟨[110,47,102], [102], 3, some [1,2,3], false⟩ : FileRec)], IntactV2 id Ex.fs Ex.fmap r) := by
   refine ⟨by decide, by decide, Ex.filemapOK, ?_⟩
   intro r hr
   simp at hr
   subst hr
   exact ⟨[([[115],[102]], 3)], [[115],[102]], [1,2,3], by decide, by decide, by decide, fun _ => rfl⟩
 
-/-- `_find_matches` finds a match whenever one exists: if for every path node of a piece there is
-    a readable same-name candidate of the recorded length with contents `contents pn` (e.g. an
-    intact copy), and the recorded digest is the SHA-1 of the concatenated node ranges of these
-    contents, then the search returns `True` – no matter how many other same-name same-size
-    candidates are enumerated before. -/
+/-- `_find_matches` finds a match whenever one exists: if for every path node of a piece that is
+    not a padding node there is a readable same-name candidate of the recorded length with
+    contents `contents pn` (e.g. an intact copy), and the recorded digest is the SHA-1 of the
+    concatenation of what the nodes stand for – the node's range of these contents, and
+    `stop - start` zero bytes for a padding node (`nodePart`) – then the search returns `True`, no
+    matter how many other same-name same-size candidates are enumerated before.  Padding nodes
+    need no candidate. -/
 theorem findMatches_complete (H1 : Bytes → Bytes) (fs : FS) (filemap : FileMap) (dest : Path)
     (piece : Bytes) (paths : List PathNode) (contents : PathNode → Bytes)
-    (hc : ∀ pn ∈ paths, ∃ cands loc, filemap.lookup pn.file.filename = some cands ∧
+    (hc : ∀ pn ∈ paths, pn.file.pad = false → ∃ cands loc, filemap.lookup pn.file.filename = some cands ∧
       (loc, pn.file.length) ∈ cands ∧ fs.readFile? loc = some (contents pn))
-    (hp : piece = H1 ((paths.map (fun pn => getPart pn.start pn.stop (contents pn))).flatten)) :
+    (hp : piece = H1 ((paths.map (fun pn => nodePart pn (contents pn))).flatten)) :
     (findMatches H1 fs filemap dest piece paths []).isSome := by
   have : ∃ choice, Combo fs filemap paths choice ∧
-      comboData paths choice = (paths.map (fun pn => getPart pn.start pn.stop (contents pn))).flatten := by
+      comboData paths choice = (paths.map (fun pn => nodePart pn (contents pn))).flatten := by
     clear hp
     induction paths with
     | nil => exact ⟨[], trivial, rfl⟩
     | cons pn ps ih =>
       obtain ⟨choice, h1, h2⟩ := ih (fun x hx => hc x (List.mem_cons_of_mem _ hx))
-      obtain ⟨cands, loc, hl, hm, hread⟩ := hc pn List.mem_cons_self
-      exact ⟨(loc, contents pn) :: choice, ⟨⟨cands, _, hl, hm, rfl, hread⟩, h1⟩, by simp [comboData, h2]⟩
+      cases hpad : pn.file.pad with
+      | true =>
+        exact ⟨([], contents pn) :: choice,
+          ⟨fun hf => absurd (hpad.symm.trans hf) (by decide), h1⟩, by simp [comboData, h2]⟩
+      | false =>
+        obtain ⟨cands, loc, hl, hm, hread⟩ := hc pn List.mem_cons_self hpad
+        exact ⟨(loc, contents pn) :: choice, ⟨fun _ => ⟨cands, _, hl, hm, rfl, hread⟩, h1⟩,
+          by simp [comboData, h2]⟩
   obtain ⟨choice, h1, h2⟩ := this
   exact findMatches_complete_combo H1 fs filemap dest piece paths choice [] h1 (by simp [h2, hp])
 
 /-- in the decoy world the second half `[3,4]` of `f` is found although the decoy `1 2 9 9` is
     tried first -/
-example : findMatches id Ex.fs2 Ex.fmap2 [[100]] [3,4] [⟨0, 2, none, ⟨[102], [102], 4, none⟩⟩] []
+example : findMatches id Ex.fs2 Ex.fmap2 [[100]] [3,4] [⟨0, 2, none, ⟨[102], [102], 4, none, false⟩⟩] []
     = some [([[115],[102]], [[100],[102]])] := by decide
 
-/-- v1 completeness (partial, see the note below).  Let `orig` be the original file contents,
-    the metafile record their lengths and the SHA-1 (`H1`) of the successive `pl`-slices of their
-    concatenation (at least one byte), the filemap describe the search directories, the destination
-    exist, and an intact same-name copy of every file be among the candidates.  Then
-    (1) every file record whose path `safe_join` accepts is counted and its destination path
+/-- v1 completeness (partial, see the note below).  Let `orig` be the original contents of the
+    entries of `info["files"]` – a padding entry (`attr = "p"`, BEP 47) standing for zero bytes
+    (`PadsAreZeros`) –, the metafile record their lengths and the SHA-1 (`H1`) of the successive
+    `pl`-slices of their concatenation (at least one byte), the filemap describe the search
+    directories, the destination exist, and an intact same-name copy of every file that is not a
+    padding entry be among the candidates (`IntactV1`; nothing is required for padding entries).
+    Then
+    (1) every non-padding file record whose path `safe_join` accepts is counted and its destination path
         exists after the rebuild – whatever decoys there are; and
     (2) PROVIDED the digest is collision free (`hinj`) and there is no partial decoy (`hnd`: a
         same-name same-size candidate that agrees with the original on the range of the file
@@ -151,20 +162,20 @@ theorem rebuild_v1_complete_partial (H1 : Bytes → Bytes) (ds : Nat) (fs : FS) 
     (dest : Path) (pl : Nat) (hpl : 0 < pl) (files : List FileRec) (orig : List Bytes)
     (hd : CleanPath dest) (hr : DestReady fs dest) (hok : FilemapOK fs dest filemap)
     (hlens : files.map (·.length) = orig.map List.length) (hne : orig.flatten ≠ [])
-    (hint : IntactV1 fs filemap files orig) :
+    (hint : IntactV1 fs filemap files orig) (hpads : PadsAreZeros files orig) :
     let pieces := (chunks pl orig.flatten).map H1
     let res := matchV1 H1 ds fs filemap dest pl pieces files
-    (∀ r ∈ files, ∀ dp, safeJoin dest r.full = some dp →
+    (∀ r ∈ files, r.pad = false → ∀ dp, safeJoin dest r.full = some dp →
       r.full ∈ res.2 ∧ ((applyOps fs res.1) dp).isSome) ∧
     ((∀ a b, H1 a = H1 b → a = b) → NoPartialDecoy fs filemap (v1PieceNodes pl pieces files) orig →
       ∀ src dst, Op.copy src dst ∈ res.1 →
-        ∃ r ∈ files, ∃ (i : Nat) (o : Bytes), files[i]? = some r ∧ safeJoin dest r.full = some dst ∧
-          orig[i]? = some o ∧ fs.readFile? src = some o) := by
+        ∃ r ∈ files, ∃ (i : Nat) (o : Bytes), files[i]? = some r ∧ r.pad = false ∧
+          safeJoin dest r.full = some dst ∧ orig[i]? = some o ∧ fs.readFile? src = some o) := by
   intro pieces res
   constructor
-  · intro r hrm dp hsj
-    have hc := matchV1_complete H1 ds fs filemap dest pl hpl files orig hd hr hok hlens hne hint r hrm
-      (by rw [hsj]; rfl)
+  · intro r hrm hrp dp hsj
+    have hc := matchV1_complete H1 ds fs filemap dest pl hpl files orig hd hr hok hlens hne hint hpads r hrm
+      hrp (by rw [hsj]; rfl)
     refine ⟨hc, ?_⟩
     obtain ⟨dp', h1, h2⟩ := matchV1Loop_present H1 ds filemap dest _ fs []
       (destReady_ex_prefix hr List.nil_prefix) r.full hc
@@ -173,23 +184,24 @@ theorem rebuild_v1_complete_partial (H1 : Bytes → Bytes) (ds : Nat) (fs : FS) 
     subst h1
     exact h2
   · intro hinj hnd src dst h
-    exact matchV1_copies_correct H1 hinj ds fs filemap dest pl hpl files orig hd hr hok hlens hint hnd src dst h
+    exact matchV1_copies_correct H1 hinj ds fs filemap dest pl hpl files orig hd hr hok hlens hint hpads hnd
+      src dst h
 
 /-- all hypotheses, the no-decoy one included, hold in the example world (`/s/f` = 1 2 3 is the only
     candidate) for the single-file torrent `n/f`, piece length 4, `H1` = identity -/
-example : IntactV1 Ex.fs Ex.fmap [⟨[110,47,102], [102], 3, none⟩] [[1,2,3]] ∧
-    NoPartialDecoy Ex.fs Ex.fmap (v1PieceNodes 4 [[1,2,3]] [⟨[110,47,102], [102], 3, none⟩]) [[1,2,3]] := by
+example : IntactV1 Ex.fs Ex.fmap [⟨[110,47,102], [102], 3, none, false⟩] [[1,2,3]] ∧
+    NoPartialDecoy Ex.fs Ex.fmap (v1PieceNodes 4 [[1,2,3]] [⟨[110,47,102], [102], 3, none, false⟩]) [[1,2,3]] := by
   constructor
-  · intro i r h
+  · intro i r h _
     cases i with
     | zero =>
       simp at h; subst h
       exact ⟨[([[115],[102]], 3)], [[115],[102]], [1,2,3], by decide, by decide, by decide, by decide⟩
     | succ i => simp at h
-  · have hv : v1PieceNodes 4 [[1,2,3]] [⟨[110,47,102], [102], 3, none⟩]
-        = [([1,2,3], [⟨0, 0, none, ⟨[110,47,102], [102], 3, none⟩⟩])] := by decide
+  · have hv : v1PieceNodes 4 [[1,2,3]] [⟨[110,47,102], [102], 3, none, false⟩]
+        = [([1,2,3], [⟨0, 0, none, ⟨[110,47,102], [102], 3, none, false⟩⟩])] := by decide
     rw [hv]
-    intro pp hpp pn hpn cands loc d o hl hm hread ho _
+    intro pp hpp pn hpn _ cands loc d o hl hm hread ho _
     simp at hpp; subst hpp
     simp at hpn; subst hpn
     obtain ⟨_, rfl⟩ := Ex.lookup_single hl
@@ -206,9 +218,9 @@ example : IntactV1 Ex.fs Ex.fmap [⟨[110,47,102], [102], 3, none⟩] [[1,2,3]] 
     destination ends up holding 1 2 9 9. -/
 theorem v1_decoy_witness :
     CleanPath [[100]] ∧ DestReady Ex.fs2 [[100]] ∧ FilemapOK Ex.fs2 [[100]] Ex.fmap2 ∧
-    IntactV1 Ex.fs2 Ex.fmap2 [⟨[102], [102], 4, none⟩] [[1,2,3,4]] ∧
+    IntactV1 Ex.fs2 Ex.fmap2 [⟨[102], [102], 4, none, false⟩] [[1,2,3,4]] ∧
     (chunks 2 ([[1,2,3,4]] : List Bytes).flatten).map id = [[1,2],[3,4]] ∧
-    matchV1 id 4096 Ex.fs2 Ex.fmap2 [[100]] 2 [[1,2],[3,4]] [⟨[102], [102], 4, none⟩]
+    matchV1 id 4096 Ex.fs2 Ex.fmap2 [[100]] 2 [[1,2],[3,4]] [⟨[102], [102], 4, none, false⟩]
       = ([Op.copy [[115],[107],[102]] [[100],[102]]], [[102]]) ∧
     applyOps Ex.fs2 [Op.copy [[115],[107],[102]] [[100],[102]]] [[100],[102]] = some (.file [1,2,9,9]) := by
   refine ⟨by decide, by decide, Ex.filemapOK2, Ex.intactV1_2, ?_, by decide, by decide⟩
@@ -217,10 +229,10 @@ theorem v1_decoy_witness :
 /-- the hypothesis that fails in the decoy world is exactly the no-decoy one: the decoy agrees with
     the original on the range `[0, 2)` covered by the first piece -/
 example : ¬ NoPartialDecoy Ex.fs2 Ex.fmap2
-    (v1PieceNodes 2 [[1,2],[3,4]] [⟨[102], [102], 4, none⟩]) [[1,2,3,4]] := by
+    (v1PieceNodes 2 [[1,2],[3,4]] [⟨[102], [102], 4, none, false⟩]) [[1,2,3,4]] := by
   intro h
-  have := h ([1,2], [⟨0, 0, some 2, ⟨[102], [102], 4, none⟩⟩]) (by decide)
-    ⟨0, 0, some 2, ⟨[102], [102], 4, none⟩⟩ (by decide)
+  have := h ([1,2], [⟨0, 0, some 2, ⟨[102], [102], 4, none, false⟩⟩]) (by decide)
+    ⟨0, 0, some 2, ⟨[102], [102], 4, none, false⟩⟩ (by decide) rfl
     [([[115], [107], [102]], 4), ([[115], [102]], 4)] [[115],[107],[102]] [1,2,9,9] [1,2,3,4]
     (by decide) (by decide) (by decide) (by decide) (by decide)
   exact absurd this (by decide)
@@ -228,18 +240,20 @@ example : ¬ NoPartialDecoy Ex.fs2 Ex.fmap2
 /-- … and so does the weaker hypothesis of `rebuild_v1_complete`: the decoy is enumerated before
     the intact copy and agrees with it on the first piece -/
 example : ¬ NoFirstPieceDecoy Ex.fs2 Ex.fmap2
-    (v1PieceNodes 2 [[1,2],[3,4]] [⟨[102], [102], 4, none⟩]) [[1,2,3,4]] := by
+    (v1PieceNodes 2 [[1,2],[3,4]] [⟨[102], [102], 4, none, false⟩]) [[1,2,3,4]] := by
   intro h
-  have := h [] ([1,2], [⟨0, 0, some 2, ⟨[102], [102], 4, none⟩⟩])
-    [([3,4], [⟨0, 2, some 4, ⟨[102], [102], 4, none⟩⟩])] (by decide)
-    ⟨0, 0, some 2, ⟨[102], [102], 4, none⟩⟩ (by decide) (by simp)
+  have := h [] ([1,2], [⟨0, 0, some 2, ⟨[102], [102], 4, none, false⟩⟩])
+    [([3,4], [⟨0, 2, some 4, ⟨[102], [102], 4, none, false⟩⟩])] (by decide)
+    ⟨0, 0, some 2, ⟨[102], [102], 4, none, false⟩⟩ (by decide) rfl (by simp)
     [([[115], [107], [102]], 4), ([[115], [102]], 4)] [([[115], [107], [102]], 4)] ([[115], [102]], 4) []
     [1,2,3,4] (by decide) (by decide) (by decide) (by decide) (by decide)
     ([[115], [107], [102]], 4) (by decide) (by decide) [1,2,9,9] (by decide) (by decide)
   exact absurd this (by decide)
 
 /-- v1 completeness, full statement with the exact hypothesis of KF-C13-1.  Let `orig` be the
-    original contents, the metafile honest (recorded lengths; `H1` of the successive `pl`-slices,
+    original contents (padding entries standing for zeros, `PadsAreZeros`; "file" below means an
+    entry that is not a padding entry – nothing is required of or done for padding entries), the
+    metafile honest (recorded lengths; `H1` of the successive `pl`-slices,
     at least one byte), `H1` collision free, the filemap describe the search directories, an intact
     same-name copy of every file be among the candidates, the destination exist, nothing exist yet
     at the accepted destination paths (`DestFresh`), and the accepted paths of different records
@@ -256,52 +270,69 @@ theorem rebuild_v1_complete (H1 : Bytes → Bytes) (hinj : ∀ a b, H1 a = H1 b 
     (filemap : FileMap) (dest : Path) (pl : Nat) (hpl : 0 < pl) (files : List FileRec) (orig : List Bytes)
     (hd : CleanPath dest) (hr : DestReady fs dest) (hok : FilemapOK fs dest filemap)
     (hlens : files.map (·.length) = orig.map List.length) (hne : orig.flatten ≠ [])
-    (hint : IntactV1 fs filemap files orig) (hsep : DestsSeparate dest files)
-    (hfresh : DestFresh fs dest files)
+    (hint : IntactV1 fs filemap files orig) (hpads : PadsAreZeros files orig)
+    (hsep : DestsSeparate dest files) (hfresh : DestFresh fs dest files)
     (hF : NoFirstPieceDecoy fs filemap (v1PieceNodes pl ((chunks pl orig.flatten).map H1) files) orig) :
     let res := matchV1 H1 ds fs filemap dest pl ((chunks pl orig.flatten).map H1) files
-    (∀ (i : Nat) (r : FileRec) (dp : Path), files[i]? = some r → safeJoin dest r.full = some dp →
+    (∀ (i : Nat) (r : FileRec) (dp : Path), files[i]? = some r → r.pad = false →
+      safeJoin dest r.full = some dp →
       ∃ o, orig[i]? = some o ∧ applyOps fs res.1 dp = some (.file o) ∧ r.full ∈ res.2) ∧
     (∀ src dst, Op.copy src dst ∈ res.1 →
-      ∃ r ∈ files, ∃ (i : Nat) (o : Bytes), files[i]? = some r ∧ safeJoin dest r.full = some dst ∧
-        orig[i]? = some o ∧ fs.readFile? src = some o) := by
+      ∃ r ∈ files, ∃ (i : Nat) (o : Bytes), files[i]? = some r ∧ r.pad = false ∧
+        safeJoin dest r.full = some dst ∧ orig[i]? = some o ∧ fs.readFile? src = some o) := by
   intro res
   obtain ⟨h1, h2⟩ := matchV1_restores H1 hinj ds fs filemap dest pl hpl files orig hd hr hok hlens hne
-    hint hsep hfresh hF
+    hint hpads hsep hfresh hF
   refine ⟨?_, h2⟩
-  intro i r dp hfi hsj
-  obtain ⟨o, ho, hfin⟩ := h1 i r dp hfi hsj
-  exact ⟨o, ho, hfin, matchV1_complete H1 ds fs filemap dest pl hpl files orig hd hr hok hlens hne hint r
-    (List.mem_of_getElem? hfi) (by rw [hsj]; rfl)⟩
+  intro i r dp hfi hrp hsj
+  obtain ⟨o, ho, hfin⟩ := h1 i r dp hfi hrp hsj
+  exact ⟨o, ho, hfin, matchV1_complete H1 ds fs filemap dest pl hpl files orig hd hr hok hlens hne hint hpads r
+    (List.mem_of_getElem? hfi) hrp (by rw [hsj]; rfl)⟩
 
 /-- all hypotheses hold in the decoy world when the original `/s/f` is enumerated BEFORE the decoy
     `/s/k/f` (`Ex.fmap3`) – although the decoy agrees with the original on the first piece; the
     original is placed: `/d/f` = 1 2 3 4 -/
 example : CleanPath [[100]] ∧ DestReady Ex.fs2 [[100]] ∧ FilemapOK Ex.fs2 [[100]] Ex.fmap3 ∧
-    IntactV1 Ex.fs2 Ex.fmap3 [⟨[102], [102], 4, none⟩] [[1,2,3,4]] ∧
-    DestsSeparate [[100]] [⟨[102], [102], 4, none⟩] ∧ DestFresh Ex.fs2 [[100]] [⟨[102], [102], 4, none⟩] ∧
-    NoFirstPieceDecoy Ex.fs2 Ex.fmap3 (v1PieceNodes 2 [[1,2],[3,4]] [⟨[102], [102], 4, none⟩]) [[1,2,3,4]] ∧
-    (let res := matchV1 id 4096 Ex.fs2 Ex.fmap3 [[100]] 2 [[1,2],[3,4]] [⟨[102], [102], 4, none⟩]
+    IntactV1 Ex.fs2 Ex.fmap3 [⟨[102], [102], 4, none, false⟩] [[1,2,3,4]] ∧
+    DestsSeparate [[100]] [⟨[102], [102], 4, none, false⟩] ∧ DestFresh Ex.fs2 [[100]] [⟨[102], [102], 4, none, false⟩] ∧
+    NoFirstPieceDecoy Ex.fs2 Ex.fmap3 (v1PieceNodes 2 [[1,2],[3,4]] [⟨[102], [102], 4, none, false⟩]) [[1,2,3,4]] ∧
+    (let res := matchV1 id 4096 Ex.fs2 Ex.fmap3 [[100]] 2 [[1,2],[3,4]] [⟨[102], [102], 4, none, false⟩]
      res = ([Op.copy [[115],[102]] [[100],[102]]], [[102]]) ∧
      applyOps Ex.fs2 res.1 [[100],[102]] = some (.file [1,2,3,4])) :=
   ⟨by decide, by decide, Ex.filemapOK3, Ex.intactV1_3, Ex.destsSeparate_single _ _, Ex.destFresh_2,
     Ex.noFirstPieceDecoy_3, by decide⟩
 
-/-- v1: every file that is counted has an accepted destination path strictly below the
-    destination directory, and that path exists when the rebuild is over. -/
+/-- a metafile with a padding entry (`Rebuild.Ex.filesP`: `T/a` = 1 2 3, the padding entry
+    `T/.pad/1` of 1 byte, `T/b` = 5 6; piece length 4, so the pieces are 1 2 3 0 | 5 6): the
+    hypotheses about the payload hold – no candidate exists or is needed for the padding entry – and
+    the rebuild restores `T/a` and `T/b` with their original contents; nothing is created for the
+    padding entry and it is not counted -/
+example : FilemapOK Ex.fsP [[100]] Ex.fmapP ∧ IntactV1 Ex.fsP Ex.fmapP Ex.filesP Ex.origP ∧
+    PadsAreZeros Ex.filesP Ex.origP ∧ Ex.filesP.map (·.length) = Ex.origP.map List.length ∧
+    (chunks 4 Ex.origP.flatten).map id = [[1,2,3,0],[5,6]] ∧
+    (let res := matchV1 id 4096 Ex.fsP Ex.fmapP [[100]] 4 [[1,2,3,0],[5,6]] Ex.filesP
+     res = ([Op.mkdir [[100],[84]], Op.copy [[115],[97]] [[100],[84],[97]],
+             Op.copy [[115],[98]] [[100],[84],[98]]], [[84,47,97], [84,47,98]]) ∧
+     applyOps Ex.fsP res.1 [[100],[84],[97]] = some (.file [1,2,3]) ∧
+     applyOps Ex.fsP res.1 [[100],[84],[98]] = some (.file [5,6]) ∧
+     applyOps Ex.fsP res.1 [[100],[84],[46,112,97,100]] = none) :=
+  ⟨Ex.filemapOKP, Ex.intactV1_P, Ex.padsAreZeros_P, by decide, by simp [Ex.chunks_P], by decide⟩
+
+/-- v1: every file that is counted is a non-padding record with an accepted destination path
+    strictly below the destination directory, and that path exists when the rebuild is over. -/
 theorem counted_are_present_v1 (H1 : Bytes → Bytes) (ds : Nat) (fs : FS) (filemap : FileMap)
     (dest : Path) (pl : Nat) (pieces : List Bytes) (files : List FileRec)
     (hd : CleanPath dest) (hroot : (fs []).isSome = true) :
     let res := matchV1 H1 ds fs filemap dest pl pieces files
-    ∀ f ∈ res.2, ∃ r ∈ files, f = r.full ∧ ∃ dp, safeJoin dest r.full = some dp ∧
+    ∀ f ∈ res.2, ∃ r ∈ files, r.pad = false ∧ f = r.full ∧ ∃ dp, safeJoin dest r.full = some dp ∧
       StrictlyBelow dest dp ∧ ((applyOps fs res.1) dp).isSome := by
   intro res f hf
-  obtain ⟨r, hr, hfr, _⟩ := matchV1_counted H1 ds fs filemap dest pl pieces files f hf
+  obtain ⟨r, hr, hfr, _, hpad⟩ := matchV1_counted H1 ds fs filemap dest pl pieces files f hf
   obtain ⟨dp, h1, h2⟩ := matchV1Loop_present H1 ds filemap dest _ fs [] hroot f hf
-  exact ⟨r, hr, hfr, dp, hfr ▸ h1, (safeJoin_within_dest dest hd _ _ h1).1, h2⟩
+  exact ⟨r, hr, hpad, hfr, dp, hfr ▸ h1, (safeJoin_within_dest dest hd _ _ h1).1, h2⟩
 
 /-- the file counted in the v1 example is present afterwards -/
-example : let res := matchV1 id 4096 Ex.fs Ex.fmap [[100]] 4 [[1,2,3]] [⟨[110,47,102], [102], 3, none⟩]
+example : let res := matchV1 id 4096 Ex.fs Ex.fmap [[100]] 4 [[1,2,3]] [⟨[110,47,102], [102], 3, none, false⟩]
     res.2 = [[110,47,102]] ∧ (applyOps Ex.fs res.1) [[100],[110],[102]] = some (.file [1,2,3]) := by decide
 
 /-- v2 / hybrid: the same, assuming every filemap candidate is (still) a regular file – an empty
@@ -317,7 +348,7 @@ theorem counted_are_present_v2 (rootOf : Bytes → Bytes) (ds : Nat) (fs : FS) (
   exact ⟨r, hr, hfr, dp, h1, (safeJoin_within_dest dest hd _ _ h1).1, h2⟩
 
 /-- the file counted in the example world is present afterwards -/
-example : let res := matchV2 id 4096 Ex.fmap [[100]] Ex.fs [⟨[110,47,102], [102], 3, some [1,2,3]⟩]
+example : let res := matchV2 id 4096 Ex.fmap [[100]] Ex.fs [⟨[110,47,102], [102], 3, some [1,2,3], false⟩]
     res.2 = [[110,47,102]] ∧ (applyOps Ex.fs res.1) [[100],[110],[102]] = some (.file [1,2,3]) := by decide
 
 end TorrentVerif.Props.C13
